@@ -24,16 +24,16 @@ theorem C16_from_to (t : Ty) (x : Inst) (hwf : tyWF t = true) (hx : okInst t x =
 
 /-- The same value read in attribute position (`make_attr_recognizer`: an `attr` field, a lone `header_body`). -/
 theorem C16_from_to_attr (t : Ty) (x : Inst) (hwf : tyWF t = true) (ha : attrSafe t = true)
-    (hx : okInst t x = true) : (codecOf t).decAttr (toValue t x) = some x :=
-  (good_ty t hwf).attr ha x hx
+    (hx : okInst t x = true) : (codecOf t).decAttr false (toValue t x) = some x :=
+  (good_ty t hwf).attr false ha x hx
 
 /-- The same value read as a delegated body (`make_body_recognizer` after `with_delegate_body` spliced it into
 the container), and the delegated part does not start with an attribute of the container. -/
 theorem C16_from_to_body (t : Ty) (x : Inst) (names : List String) (hwf : tyWF t = true)
     (hb : bodySafe names t = true) (hx : okInst t x = true) :
-    (codecOf t).decBody (bodySplit (toValue t x)).1 (bodySplit (toValue t x)).2 = some x
+    (codecOf t).decBody false (bodySplit (toValue t x)).1 (bodySplit (toValue t x)).2 = some x
     ∧ ∀ n v r, (bodySplit (toValue t x)).1 = (n, v) :: r → names.contains n = false :=
-  (good_ty t hwf).body names hb x hx
+  (good_ty t hwf).body false names hb x hx
 
 /-- A field that `write_with` leaves out (`omit_as_field`) is exactly one that `on_absent` restores. -/
 theorem C16_omitted_is_restored (t : Ty) (x : Inst) (hwf : tyWF t = true) (hx : okInst t x = true)
@@ -219,5 +219,67 @@ theorem C16_from_to_all_derivable_fails : ¬ C16_from_to_all_derivable := by
 theorem C16_from_to_all_derivable_partial :
     ∀ t x, deriveOK t = true → tyWF t = true → okInst t x = true → fromValue t (toValue t x) = some x :=
   fun t x _ hwf hx => C16_from_to t x hwf hx
+
+/-! ### recognisers that are used again after `reset()`
+
+The element recogniser of a collection is reset and reused from the second element on (`VecRecognizer`), and a
+decoder resets its recogniser between frames. `fromValueReused` is the model of such a recogniser. -/
+
+def collect : List (Option Inst) → Option (List Inst)
+  | [] => some []
+  | none :: _ => none
+  | some x :: rest => (collect rest).map (x :: ·)
+
+theorem listItems_collect (d : Val → Option Inst) (vs : List Val) :
+    listItems d (vs.map fun v => (none, v)) = collect (vs.map d) := by
+  induction vs with
+  | nil => rfl
+  | cons v vs ih =>
+    simp only [List.map_cons, listItems, collect]
+    cases d v with
+    | none => rfl
+    | some x =>
+      simp only [ih, collect]
+      cases h : collect (vs.map d) <;> simp
+
+/-- Reading a `Vec<T>` is: the first element by the element recogniser as it is, every later one by the same
+recogniser after `reset()`, independently of each other. -/
+theorem C16_vec_is_elementwise (t : Ty) (v : Val) (vs : List Val) :
+    fromValue (.list t) (.record [] ((v :: vs).map fun v => (none, v)))
+      = (collect (fromValue t v :: vs.map (fromValueReused t))).map .list := by
+  simp only [fromValue, fromValueReused, codecOf, listCodec, listDec, List.map_cons, listItemsFrom, collect,
+    listItems_collect]
+  cases (codecOf t).dec false v with
+  | none => rfl
+  | some x =>
+    have hfr : fromValueReused t = (codecOf t).dec true := rfl
+    simp only [collect, hfr]
+    cases h : collect (vs.map ((codecOf t).dec true)) <;> simp
+
+/-- What was written is read back by a reused recogniser exactly as by a fresh one (every `tyWF` schema). -/
+theorem C16_reset_is_fresh_on_written (t : Ty) (x : Inst) (hwf : tyWF t = true) (hx : okInst t x = true) :
+    fromValueReused t (toValue t x) = fromValue t (toValue t x) := by
+  rw [fromValueReused_toValue t x hwf hx, fromValue_toValue t x hwf hx]
+
+/-- The unrestricted statement: a recogniser after `reset()` behaves as a new one, on every input. -/
+def C16_reset_is_fresh : Prop := ∀ (t : Ty) (v : Val), fromValueReused t v = fromValue t v
+
+/-- It is false of the current code (C16-F16): `VecRecognizer::reset` returns to `BodyStage::Init` even for the
+instance made for a flattened attribute body, so a reused `Vec` attribute recogniser has lost its flattened
+alternative. Witness (battery `V:S29`, `seq S18`): `@S29 @a({}) { s: 1 }` is `a = [[]]` for a fresh recogniser (C16-F3)
+and `a = []` for a reused one; the real code gives exactly these two answers for the first and for a later element of
+a `Vec<S29>`. -/
+theorem C16_reset_is_fresh_fails : ¬ C16_reset_is_fresh := by
+  intro h
+  have := h wS29 (toValue wS29 (.struct [.list [], .int 1]))
+  have h1 : (fromValue wS29 (toValue wS29 (.struct [.list [], .int 1]))).map Inst.render = some "([[]],i1)" := by decide
+  have h2 : (fromValueReused wS29 (toValue wS29 (.struct [.list [], .int 1]))).map Inst.render = some "([],i1)" := by decide
+  rw [this, h1] at h2
+  exact absurd h2 (by decide)
+
+/-- Open: with `VecRecognizer::reset` repaired (`Generated.vecResetKeepsAttrMode = true`, fixes/C16-F16.patch) the two
+modes of the model coincide on every input. -/
+def C16_reset_is_fresh_after_repair_open : Prop :=
+  Generated.vecResetKeepsAttrMode = true → C16_reset_is_fresh
 
 end SwimVerif.Form
